@@ -161,7 +161,7 @@ def instrument(house, log, pre=None, post=None, send_hook=None):
                     line = (act.count or 0) - 1
                     kind = kind_of(act)
                     ev = ["act", fr.name, frame.name, ctx, line, kind]
-                    boolres = ctx in ("benter", "precur")
+                    boolres = ctx in ("benter", "precur") or kind == "fiat"
                     if kind in ("go", "auxif"):
                         needs = act.parms.get("needs") or []
                         for j, nd in enumerate(needs):
@@ -283,7 +283,8 @@ def run_real(prog, ticks=None, crash=None, text=None):
                 raise KeyboardInterrupt()
             raise Crash("injected")
 
-    framers = instrument(house, log, pre=pre if crash else None)
+    framers = instrument(house, log, pre=pre)
+    calls_per_tick = []
     paths = pool_paths(prog)
     stamp2tick = {}
 
@@ -292,6 +293,7 @@ def run_real(prog, ticks=None, crash=None, text=None):
         if i > 0:
             trace["ticks"].append({"events": log.cur, "snap": snapshot(house, framers, paths, stamp2tick)})
             log.cur = []
+            calls_per_tick.append(state["calls"])
         state["tick"] = i
         state["calls"] = 0
 
@@ -315,4 +317,5 @@ def run_real(prog, ticks=None, crash=None, text=None):
     # the events since the last tick boundary belong to the last tick run + the abort sweep
     trace["final"] = {"events": log.cur, "snap": snapshot(house, framers, paths, stamp2tick)}
     trace["nticks"] = tb.tick + 1
+    trace["calls"] = calls_per_tick     # probed act calls in each completed tick (crash point space)
     return trace
